@@ -276,7 +276,7 @@ def parent_main(a):
     for j in results:
         sc = j["sc"]
         ps = per_sub.setdefault(sc.name, {"evaluations": 0, "nontrivial": set(), "classes": {}, "discards": {},
-                                          "known": {}, "samples": [], "extra": {}, "modes": sc.modes,
+                                          "known": {}, "samples": [], "extra": {}, "maxima": {}, "modes": sc.modes,
                                           "shards": 0, "exhaustive": sc.exhaustive, "wall_s": 0.0})
         data = None
         if os.path.exists(j["out"]):
@@ -305,6 +305,8 @@ def parent_main(a):
         for k, v in tl["extra"].items():
             if isinstance(v, (int, float)):
                 ps["extra"][k] = ps["extra"].get(k, 0) + v
+        for k, v in tl.get("maxima", {}).items():
+            ps["maxima"][k] = max(ps["maxima"].get(k, v), v)
         for k, v in tl["known"].items():
             kk = ps["known"].setdefault(k, {"count": 0, "what": v["what"], "sample": v["sample"]})
             kk["count"] += v["count"]
@@ -353,7 +355,7 @@ def parent_main(a):
                 "evaluations": p["evaluations"], "distinct_nontrivial": len(p["nontrivial"]),
                 "modes": p["modes"], "child_processes": p["shards"], "classes": p["classes"],
                 "discarded": p["discards"], "excluded_known": {k: v["count"] for k, v in p["known"].items()},
-                "exhaustive": bool(p["exhaustive"]), "extra": p["extra"], "max_child_wall_s": round(p["wall_s"], 2),
+                "exhaustive": bool(p["exhaustive"]), "extra": p["extra"], "maxima": p["maxima"], "max_child_wall_s": round(p["wall_s"], 2),
             } for name, p in per_sub.items()
         },
         "excluded_known": int(known_total),
